@@ -494,7 +494,7 @@ func walkExe(exe *ggql.Executable) {
 			return
 		}
 		for _, s := range ss {
-			if depth < 3 {
+			if depth == 0 {
 				_ = s.String() // (printing every subtree of a deep document is quadratic)
 			}
 			_ = s.Directives()
